@@ -309,6 +309,9 @@ def run(ctx):
                         ['call_count = 1', 'callback_count = callback_count + 1', 'callfoo = 2']),
         'ImportPattern': (['use m', 'use m, only: a', 'use :: m', 'use, intrinsic :: iso_c_binding, only: c_int', 'use, non_intrinsic :: m',
                            'use m, only: a => b'], ['user_var = 1', 'used = .true.']),
+        'InterfacePattern': (['interface\n subroutine i(x)\n end subroutine i\nend interface', 'interface\n subroutine i(x)\n end subroutine i\nendinterface',
+                              'abstract interface\n subroutine i(x)\n end subroutine i\nEND INTERFACE', 'interface gen\n module procedure a\nend interface gen'],
+                             ['interface_count = 1']),
     }
     for cn, (accept, reject) in TABLE.items():
         C_ = m.get_class(RXF, cn)
@@ -322,7 +325,11 @@ def run(ctx):
         from sa.model import NOFOLD
         if pat is NOFOLD or not isinstance(pat, str):
             raise AnalysisError(f'{cn}: pattern does not fold to a string')
-        flags = _re.I if any('IGNORECASE' in ast.unparse(a_) for a_ in sup[0].args[1:]) else 0
+        flags = 0
+        for a_ in sup[0].args[1:]:
+            for fn_ in ast.walk(a_):
+                if isinstance(fn_, ast.Attribute) and fn_.attr.isupper() and hasattr(_re, fn_.attr):
+                    flags |= getattr(_re, fn_.attr)
         rx = _re.compile(pat, flags)
         where_ = f'{RXF}:{sup[0].lineno}'
         for sp in accept:
@@ -341,6 +348,8 @@ def run(ctx):
 
 
 MUTANTS = [
+    Mutant('endinterface-needs-blank', 'loki/frontend/regex.py', "            r'^end[ \\t]*interface\\b[ \\t]*(?P=spec)?',", "            r'^end[ \\t]+interface\\b[ \\t]*(?P=spec)?',",
+           expect=('R7', 'spelling-not-matched')),
     Mutant('call-keyword-without-blank', 'loki/frontend/regex.py', "            r'call[ \\t]+',  # Call keyword", "            r'call',  # Call keyword", expect=('R7', 'identifier-matched')),
     Mutant('file-level-shortcut', 'loki/sourcefile.py', "            if frontend == REGEX:\n                frontend_argnames = ['parser_classes']\n",
            "            if frontend == REGEX:\n                frontend_argnames = ['parser_classes']\n                if self._parser_classes and (self._parser_classes | frontend_args.get('parser_classes', RegexParserClass.AllClasses)) == self._parser_classes:\n                    return\n",
